@@ -55,6 +55,9 @@ theories/Model/DiskCache.vos theories/Model/DiskCache.vok theories/Model/DiskCac
 theories/Model/DiskConfig.vo theories/Model/DiskConfig.glob theories/Model/DiskConfig.v.beautified theories/Model/DiskConfig.required_vo: theories/Model/DiskConfig.v theories/Base/Sx.vo
 theories/Model/DiskConfig.vio: theories/Model/DiskConfig.v theories/Base/Sx.vio
 theories/Model/DiskConfig.vos theories/Model/DiskConfig.vok theories/Model/DiskConfig.required_vos: theories/Model/DiskConfig.v theories/Base/Sx.vos
+theories/Model/DiskTree.vo theories/Model/DiskTree.glob theories/Model/DiskTree.v.beautified theories/Model/DiskTree.required_vo: theories/Model/DiskTree.v theories/Base/Sx.vo theories/Model/Lru.vo theories/Model/DiskCache.vo theories/Model/RoCache.vo
+theories/Model/DiskTree.vio: theories/Model/DiskTree.v theories/Base/Sx.vio theories/Model/Lru.vio theories/Model/DiskCache.vio theories/Model/RoCache.vio
+theories/Model/DiskTree.vos theories/Model/DiskTree.vok theories/Model/DiskTree.required_vos: theories/Model/DiskTree.v theories/Base/Sx.vos theories/Model/Lru.vos theories/Model/DiskCache.vos theories/Model/RoCache.vos
 theories/Model/DistArgs.vo theories/Model/DistArgs.glob theories/Model/DistArgs.v.beautified theories/Model/DistArgs.required_vo: theories/Model/DistArgs.v theories/Base/Sx.vo
 theories/Model/DistArgs.vio: theories/Model/DistArgs.v theories/Base/Sx.vio
 theories/Model/DistArgs.vos theories/Model/DistArgs.vok theories/Model/DistArgs.required_vos: theories/Model/DistArgs.v theories/Base/Sx.vos
@@ -157,6 +160,9 @@ theories/Proofs/DiskCache.vos theories/Proofs/DiskCache.vok theories/Proofs/Disk
 theories/Proofs/DiskConfig.vo theories/Proofs/DiskConfig.glob theories/Proofs/DiskConfig.v.beautified theories/Proofs/DiskConfig.required_vo: theories/Proofs/DiskConfig.v theories/Base/Sx.vo theories/Model/Lru.vo theories/Model/RoCache.vo theories/Model/DiskConfig.vo theories/Proofs/RoCache.vo
 theories/Proofs/DiskConfig.vio: theories/Proofs/DiskConfig.v theories/Base/Sx.vio theories/Model/Lru.vio theories/Model/RoCache.vio theories/Model/DiskConfig.vio theories/Proofs/RoCache.vio
 theories/Proofs/DiskConfig.vos theories/Proofs/DiskConfig.vok theories/Proofs/DiskConfig.required_vos: theories/Proofs/DiskConfig.v theories/Base/Sx.vos theories/Model/Lru.vos theories/Model/RoCache.vos theories/Model/DiskConfig.vos theories/Proofs/RoCache.vos
+theories/Proofs/DiskTree.vo theories/Proofs/DiskTree.glob theories/Proofs/DiskTree.v.beautified theories/Proofs/DiskTree.required_vo: theories/Proofs/DiskTree.v theories/Base/Sx.vo theories/Model/Lru.vo theories/Model/DiskCache.vo theories/Model/DiskTree.vo theories/Model/RoCache.vo theories/Proofs/Lru.vo theories/Proofs/DiskCache.vo
+theories/Proofs/DiskTree.vio: theories/Proofs/DiskTree.v theories/Base/Sx.vio theories/Model/Lru.vio theories/Model/DiskCache.vio theories/Model/DiskTree.vio theories/Model/RoCache.vio theories/Proofs/Lru.vio theories/Proofs/DiskCache.vio
+theories/Proofs/DiskTree.vos theories/Proofs/DiskTree.vok theories/Proofs/DiskTree.required_vos: theories/Proofs/DiskTree.v theories/Base/Sx.vos theories/Model/Lru.vos theories/Model/DiskCache.vos theories/Model/DiskTree.vos theories/Model/RoCache.vos theories/Proofs/Lru.vos theories/Proofs/DiskCache.vos
 theories/Proofs/DistArgs.vo theories/Proofs/DistArgs.glob theories/Proofs/DistArgs.v.beautified theories/Proofs/DistArgs.required_vo: theories/Proofs/DistArgs.v theories/Base/Sx.vo theories/Model/DistArgs.vo
 theories/Proofs/DistArgs.vio: theories/Proofs/DistArgs.v theories/Base/Sx.vio theories/Model/DistArgs.vio
 theories/Proofs/DistArgs.vos theories/Proofs/DistArgs.vok theories/Proofs/DistArgs.required_vos: theories/Proofs/DistArgs.v theories/Base/Sx.vos theories/Model/DistArgs.vos
@@ -247,9 +253,9 @@ theories/Properties/C04.vos theories/Properties/C04.vok theories/Properties/C04.
 theories/Properties/C05.vo theories/Properties/C05.glob theories/Properties/C05.v.beautified theories/Properties/C05.required_vo: theories/Properties/C05.v theories/Base/Sx.vo theories/Model/RustPath.vo theories/Model/DepInfo.vo theories/Model/RustArgs.vo theories/Model/RustKey.vo theories/Gen/C05HashSpec.vo theories/Gen/C05ArgTable.vo theories/Proofs/DepInfo.vo theories/Proofs/RustKey.vo theories/Proofs/RustArgs.vo
 theories/Properties/C05.vio: theories/Properties/C05.v theories/Base/Sx.vio theories/Model/RustPath.vio theories/Model/DepInfo.vio theories/Model/RustArgs.vio theories/Model/RustKey.vio theories/Gen/C05HashSpec.vio theories/Gen/C05ArgTable.vio theories/Proofs/DepInfo.vio theories/Proofs/RustKey.vio theories/Proofs/RustArgs.vio
 theories/Properties/C05.vos theories/Properties/C05.vok theories/Properties/C05.required_vos: theories/Properties/C05.v theories/Base/Sx.vos theories/Model/RustPath.vos theories/Model/DepInfo.vos theories/Model/RustArgs.vos theories/Model/RustKey.vos theories/Gen/C05HashSpec.vos theories/Gen/C05ArgTable.vos theories/Proofs/DepInfo.vos theories/Proofs/RustKey.vos theories/Proofs/RustArgs.vos
-theories/Properties/C06.vo theories/Properties/C06.glob theories/Properties/C06.v.beautified theories/Properties/C06.required_vo: theories/Properties/C06.v theories/Base/Sx.vo theories/Model/Lru.vo theories/Model/DiskCache.vo theories/Proofs/DiskCache.vo
-theories/Properties/C06.vio: theories/Properties/C06.v theories/Base/Sx.vio theories/Model/Lru.vio theories/Model/DiskCache.vio theories/Proofs/DiskCache.vio
-theories/Properties/C06.vos theories/Properties/C06.vok theories/Properties/C06.required_vos: theories/Properties/C06.v theories/Base/Sx.vos theories/Model/Lru.vos theories/Model/DiskCache.vos theories/Proofs/DiskCache.vos
+theories/Properties/C06.vo theories/Properties/C06.glob theories/Properties/C06.v.beautified theories/Properties/C06.required_vo: theories/Properties/C06.v theories/Base/Sx.vo theories/Model/Lru.vo theories/Model/DiskCache.vo theories/Model/DiskTree.vo theories/Proofs/DiskCache.vo theories/Proofs/DiskTree.vo theories/Model/RoCache.vo
+theories/Properties/C06.vio: theories/Properties/C06.v theories/Base/Sx.vio theories/Model/Lru.vio theories/Model/DiskCache.vio theories/Model/DiskTree.vio theories/Proofs/DiskCache.vio theories/Proofs/DiskTree.vio theories/Model/RoCache.vio
+theories/Properties/C06.vos theories/Properties/C06.vok theories/Properties/C06.required_vos: theories/Properties/C06.v theories/Base/Sx.vos theories/Model/Lru.vos theories/Model/DiskCache.vos theories/Model/DiskTree.vos theories/Proofs/DiskCache.vos theories/Proofs/DiskTree.vos theories/Model/RoCache.vos
 theories/Properties/C07.vo theories/Properties/C07.glob theories/Properties/C07.v.beautified theories/Properties/C07.required_vo: theories/Properties/C07.v theories/Base/Sx.vo theories/Model/Lru.vo theories/Proofs/Lru.vo
 theories/Properties/C07.vio: theories/Properties/C07.v theories/Base/Sx.vio theories/Model/Lru.vio theories/Proofs/Lru.vio
 theories/Properties/C07.vos theories/Properties/C07.vok theories/Properties/C07.required_vos: theories/Properties/C07.v theories/Base/Sx.vos theories/Model/Lru.vos theories/Proofs/Lru.vos
@@ -307,9 +313,9 @@ theories/Run/C04.vos theories/Run/C04.vok theories/Run/C04.required_vos: theorie
 theories/Run/C05.vo theories/Run/C05.glob theories/Run/C05.v.beautified theories/Run/C05.required_vo: theories/Run/C05.v theories/Base/Sx.vo theories/Model/RustPath.vo theories/Model/DepInfo.vo theories/Model/RustArgs.vo theories/Model/RustKey.vo theories/Gen/C05HashSpec.vo theories/Gen/C05ArgTable.vo
 theories/Run/C05.vio: theories/Run/C05.v theories/Base/Sx.vio theories/Model/RustPath.vio theories/Model/DepInfo.vio theories/Model/RustArgs.vio theories/Model/RustKey.vio theories/Gen/C05HashSpec.vio theories/Gen/C05ArgTable.vio
 theories/Run/C05.vos theories/Run/C05.vok theories/Run/C05.required_vos: theories/Run/C05.v theories/Base/Sx.vos theories/Model/RustPath.vos theories/Model/DepInfo.vos theories/Model/RustArgs.vos theories/Model/RustKey.vos theories/Gen/C05HashSpec.vos theories/Gen/C05ArgTable.vos
-theories/Run/C06.vo theories/Run/C06.glob theories/Run/C06.v.beautified theories/Run/C06.required_vo: theories/Run/C06.v theories/Base/Sx.vo theories/Model/Lru.vo theories/Model/DiskCache.vo
-theories/Run/C06.vio: theories/Run/C06.v theories/Base/Sx.vio theories/Model/Lru.vio theories/Model/DiskCache.vio
-theories/Run/C06.vos theories/Run/C06.vok theories/Run/C06.required_vos: theories/Run/C06.v theories/Base/Sx.vos theories/Model/Lru.vos theories/Model/DiskCache.vos
+theories/Run/C06.vo theories/Run/C06.glob theories/Run/C06.v.beautified theories/Run/C06.required_vo: theories/Run/C06.v theories/Base/Sx.vo theories/Model/Lru.vo theories/Model/DiskCache.vo theories/Model/DiskTree.vo theories/Model/RoCache.vo
+theories/Run/C06.vio: theories/Run/C06.v theories/Base/Sx.vio theories/Model/Lru.vio theories/Model/DiskCache.vio theories/Model/DiskTree.vio theories/Model/RoCache.vio
+theories/Run/C06.vos theories/Run/C06.vok theories/Run/C06.required_vos: theories/Run/C06.v theories/Base/Sx.vos theories/Model/Lru.vos theories/Model/DiskCache.vos theories/Model/DiskTree.vos theories/Model/RoCache.vos
 theories/Run/C07.vo theories/Run/C07.glob theories/Run/C07.v.beautified theories/Run/C07.required_vo: theories/Run/C07.v theories/Base/Sx.vo theories/Model/Lru.vo
 theories/Run/C07.vio: theories/Run/C07.v theories/Base/Sx.vio theories/Model/Lru.vio
 theories/Run/C07.vos theories/Run/C07.vok theories/Run/C07.required_vos: theories/Run/C07.v theories/Base/Sx.vos theories/Model/Lru.vos
